@@ -283,7 +283,8 @@ Print Assumptions C12_edge_vt_empty.
    unpack with a counted loop: lift_fst forgets the tick count and the model's fuel must suffice (`<> Raise OutOfFuel`, or
    `len data < fuel` in the *_total variants, by the C12_total_* theorems); VerificationTrailer.unpack: fuel for fuel. ---- *)
 From V Require Import Prelude.PyAst Prelude.PyWorld gen.F_rpc Flow.World_rpc Proofs.Flow_rpc_lib.
-From V Require Import Proofs.Flow_rpc_pdu Proofs.Flow_rpc_request Proofs.Flow_rpc_bind Proofs.Flow_rpc_vt Proofs.Flow_rpc_epm Proofs.Flow_rpc_eptmap.
+From V Require Import Proofs.Flow_rpc_wf Proofs.Flow_rpc_pdu Proofs.Flow_rpc_request Proofs.Flow_rpc_bind_ctx Proofs.Flow_rpc_bind_bind Proofs.Flow_rpc_bind_ack
+  Proofs.Flow_rpc_vt Proofs.Flow_rpc_epm Proofs.Flow_rpc_eptmap_unpack Proofs.Flow_rpc_eptmap_pack.
 From V Require Import Prelude.PySlice.
 Local Open Scope list_scope.
 Local Open Scope Z_scope.
@@ -355,7 +356,7 @@ Print Assumptions C12_flow_request_pack_wf.
 Theorem C12_flow_response_pack_wf : forall mf fuel m, wf_response m = true -> run (W mf) fuel k_flow_response_pack [VO (OResponse m)] = Ok (VB (response_pack m)).
 Proof. exact flow_response_pack_wf. Qed.
 Print Assumptions C12_flow_response_pack_wf.
-(* Flow_rpc_bind.v *)
+(* Flow_rpc_bind_ctx.v, Flow_rpc_bind_bind.v, Flow_rpc_bind_ack.v *)
 Theorem C12_flow_syntaxid_pack : forall mf fuel s, run (W mf) fuel k_flow_syntaxid_pack [VO (OSyntaxId s)] = chk (syntax_id_ranges s) (syntax_id_pack s).
 Proof. exact flow_syntaxid_pack. Qed.
 Print Assumptions C12_flow_syntaxid_pack.
@@ -538,7 +539,7 @@ Print Assumptions C12_flow_wf_eptres_ranges.
 Theorem C12_flow_eptmapresult_unpack_total : forall mf mfuel fuel data, len data < Z.of_nat mfuel -> run (W mf) fuel k_flow_eptmapresult_unpack [VO (OCls CEptMapResult); VB data] = lift_fst OEptMapResult (ept_map_result_unpack mfuel data).
 Proof. exact flow_eptmapresult_unpack_total. Qed.
 Print Assumptions C12_flow_eptmapresult_unpack_total.
-(* Flow_rpc_eptmap.v *)
+(* Flow_rpc_eptmap_unpack.v, Flow_rpc_eptmap_pack.v *)
 Theorem C12_flow_build_tcpip_tower : forall mf fuel service data_rep port addr, run (W mf) fuel k_flow_build_tcpip_tower [VO (OSyntaxId service); VO (OSyntaxId data_rep); VI port; VI addr] = Ok (vfloors (build_tcpip_tower service data_rep port addr)).
 Proof. exact flow_build_tcpip_tower. Qed.
 Print Assumptions C12_flow_build_tcpip_tower.
